@@ -202,6 +202,34 @@ def ref_dups(kind, xs, method):
     return pos
 
 
+def op_radd(acc, kind, idx):
+    """plain_list + container: either TypeError (the reflected operation is not offered) or every element supplied, left operand
+    first - never a re-ordered result."""
+    for cut in range(len(idx) + 1):
+        left_idx, right_idx = idx[:cut], idx[cut:]
+        ck = f"{kind}|{idx}|radd|{cut}"
+        case = {'op': 'radd', 'kind': kind, 'idx': list(idx), 'cut': cut}
+        _, left = mk(kind, left_idx)
+        tl, right = mk(kind, right_idx)
+        try:
+            got = list(left) + tl
+            res = [x.trs for x in got]
+        except TypeError:
+            res = 'TypeError'
+        except Exception as e:  # noqa
+            acc.case(ck, 'EXC')
+            viol(acc, 'exception', ck, case, got=f"{type(e).__name__}: {e}")
+            continue
+        acc.case(ck, res)
+        acc.states += 1
+        acc.transitions += 1
+        want = [x.trs for x in left] + [x.trs for x in right]
+        if res != 'TypeError' and res != want:
+            viol(acc, 'radd_order', ck, case, got=res, exp=want)
+        else:
+            acc.guard('radd_checked')
+
+
 def op_dups(acc, kind, idx):
     for method in ('instance', 'lots_qqs', 'desc', 'trs', 'default'):
         for drop in (False, True):
@@ -595,6 +623,8 @@ def run_ops(acc, kind, idx):
         op_filter(acc, kind, idx, 'plss')
     op_filter_errors(acc, kind, idx)
     op_dups(acc, kind, idx)
+    if len(idx) <= 3:
+        op_radd(acc, kind, idx)
     op_group(acc, kind, idx)
 
 
@@ -646,6 +676,8 @@ def replay(case):
             op_filter_errors(acc, kind, idx)
         elif op == 'filter_duplicates':
             op_dups(acc, kind, idx)
+        elif op == 'radd':
+            op_radd(acc, kind, idx)
         else:
             ii = case.get('into_idx')
             op_group(acc, kind, idx, tuple(ii) if ii is not None else None)
